@@ -228,7 +228,7 @@ impl<T: RtpsWriter> DataWriterEntity<T> {
         &mut self,
         dynamic_data: &DynamicData<'static>,
         type_support: &DynamicType<'static>,
-        timestamp: Time,
+        now: Time,
     ) -> DdsResult<Option<InstanceHandle>> {
         if !self.enabled {
             return Err(DdsError::NotEnabled);
@@ -243,16 +243,18 @@ impl<T: RtpsWriter> DataWriterEntity<T> {
 
         let instance_handle = get_instance_handle_from_key_holder_data(&key_holder_data)?;
 
-        if let Some(instance_info) = self
+        // The offered deadline of the instance runs on the clock, from the moment it is registered: the source
+        // timestamp supplied by the application says nothing about it, and registering a known instance again
+        // is not a new sample
+        if self
             .registered_instance_info
-            .iter_mut()
-            .find(|x| x.instance_handle == instance_handle)
+            .iter()
+            .any(|x| x.instance_handle == instance_handle)
         {
-            instance_info.last_write_time = Some(timestamp);
         } else if self.registered_instance_info.len() < self.qos.resource_limits.max_instances {
             self.registered_instance_info.push(RegisteredInstanceInfo {
                 instance_handle,
-                last_write_time: Some(timestamp),
+                last_write_time: Some(now),
                 samples: VecDeque::new(),
             });
         } else {
